@@ -1,25 +1,36 @@
 """C11 - sweep expressions are confined to the safe grammar.
 
 D1 visitor completeness, D2 whitelist <= documented table, D3 validate-before-evaluate.
+
+Every rule that looks inside a function body works on the normal form of that function (private helpers
+inlined, module constants substituted, single-assignment pure locals propagated) and finds the constructs
+by their role (what is tested / visited / compiled), not by the spelling of a local or of a table name.
 """
 from __future__ import annotations
 
 import ast
 import re
-from typing import Dict, List, Optional, Set, Tuple
+from typing import Callable, Dict, List, Optional, Set, Tuple
 
-from ..cfg import CFG, EXC, edges_guaranteeing, returns_only_through
+from ..cfg import CFG, EXC, edges_guaranteeing, reaching_defs, returns_only_through
 from ..engine import (
+    MUTATORS,
     AnalysisError,
     FuncNode,
     Repo,
+    ancestors,
+    assigned_value,
     call_attr,
     call_name,
     calls_in,
     dotted_name,
     kwarg,
+    mutation_sites,
     norm,
+    parent,
     qualname_of,
+    returned_values,
+    stmt_of,
     walk_no_nested,
 )
 from ..normal import nfunc
@@ -27,6 +38,8 @@ from ..report import Report
 
 SAFE = "semantiva/utils/safe_eval.py"
 SWEEP = "semantiva/data_processors/parametric_sweep_factory.py"
+VISITOR = "_SafeVisitor"
+EVALUATOR = "ExpressionEvaluator"
 
 # The documented safe grammar (semantiva/utils/safe_eval.py as shipped, restated in
 # the property): arithmetic, boolean and comparison operators, conditional
@@ -39,12 +52,20 @@ DOCUMENTED_NODES = {
 }
 DOCUMENTED_FUNCS = {"abs", "min", "max", "round", "float", "int", "str", "bool"}
 NON_NODE_TYPES = {"identifier", "int", "string", "constant"}
-# who-may-eval: (file, function) -> builtins allowed there, with reason
+# who-may-eval: (file, function) -> builtins allowed there, with reason.  Closures nested in
+# ExpressionEvaluator.compile may call eval() (its arguments are decided by C11-D3-eval), private helpers that
+# the normal form of compile() inlines are analysed in context by C11-D3-order / C11-D3-eval.
 EVAL_SITES = {
     (SAFE, "ExpressionEvaluator.compile"): {"compile"},
-    (SAFE, "ExpressionEvaluator.compile._fn"): {"eval"},
     ("semantiva/trace/_utils.py", "_semantiva_version"): {"exec"},  # reads version.txt of the package
 }
+COMPILE_QN = "ExpressionEvaluator.compile"
+# calls that may receive the validated tree between validation and compile() without altering its structure
+TREE_READERS = {
+    "ast.fix_missing_locations", "ast.dump", "ast.unparse", "ast.walk", "ast.iter_child_nodes", "ast.copy_location",
+    "ast.increment_lineno", "ast.get_source_segment", "isinstance", "type", "id", "repr", "str", "len", "print",
+}
+ANYFUNC = FuncNode + (ast.Lambda,)
 
 
 def asdl_fields(cls_name: str) -> List[Tuple[str, str, str]]:
@@ -90,13 +111,102 @@ def set_literal_names(value: ast.AST) -> Optional[Set[str]]:
     return out
 
 
-def class_attr(cls: ast.ClassDef, name: str) -> Optional[ast.AST]:
+def class_values(cls: ast.ClassDef, name: str) -> List[ast.AST]:
+    """Every value bound to *name* in the class body."""
+    out: List[ast.AST] = []
     for st in cls.body:
         if isinstance(st, ast.Assign) and any(isinstance(t, ast.Name) and t.id == name for t in st.targets):
-            return st.value
-        if isinstance(st, ast.AnnAssign) and isinstance(st.target, ast.Name) and st.target.id == name:
-            return st.value
-    return None
+            out.append(st.value)
+        if isinstance(st, ast.AnnAssign) and isinstance(st.target, ast.Name) and st.target.id == name and st.value is not None:
+            out.append(st.value)
+    return out
+
+
+def class_attr(cls: ast.ClassDef, name: str) -> Optional[ast.AST]:
+    vals = class_values(cls, name)
+    return vals[0] if vals else None
+
+
+def module_values(tree: ast.Module, name: str) -> List[ast.AST]:
+    out: List[ast.AST] = []
+    for st in tree.body:
+        if isinstance(st, ast.Assign) and any(isinstance(t, ast.Name) and t.id == name for t in st.targets):
+            out.append(st.value)
+        if isinstance(st, ast.AnnAssign) and isinstance(st.target, ast.Name) and st.target.id == name and st.value is not None:
+            out.append(st.value)
+    return out
+
+
+def is_class_ref(e: ast.AST, cls_name: str) -> bool:
+    """``self`` / ``cls`` / ``<ClassName>`` / ``type(self)`` / ``self.__class__``."""
+    if isinstance(e, ast.Name):
+        return e.id in ("self", "cls", cls_name)
+    if isinstance(e, ast.Call) and isinstance(e.func, ast.Name) and e.func.id == "type" and len(e.args) == 1 and not e.keywords:
+        return isinstance(e.args[0], ast.Name) and e.args[0].id == "self"
+    if isinstance(e, ast.Attribute) and e.attr == "__class__":
+        return isinstance(e.value, ast.Name) and e.value.id == "self"
+    return False
+
+
+class Tables:
+    """Resolves a whitelist-table expression (as written in a method of *cls* or in the class body) to the
+    names of its elements: literals, ``set()/frozenset()`` wrappers, unions, ``*`` spreads, and references to
+    class attributes / module-level names bound exactly once."""
+
+    def __init__(self, mod, cls: ast.ClassDef):
+        self.mod, self.cls = mod, cls
+        self.attrs_used: Set[str] = set()  # class attributes / module names the tables were read from
+
+    def names(self, e: ast.AST, depth: int = 0) -> Optional[Set[str]]:
+        if depth > 6:
+            return None
+        if isinstance(e, ast.Call) and isinstance(e.func, ast.Name) and e.func.id in ("set", "frozenset", "tuple", "list") and not e.keywords:
+            if not e.args:
+                return set()
+            return self.names(e.args[0], depth + 1) if len(e.args) == 1 else None
+        if isinstance(e, (ast.Set, ast.Tuple, ast.List)):
+            out: Set[str] = set()
+            for x in e.elts:
+                if isinstance(x, ast.Starred):
+                    sub = self.names(x.value, depth + 1)
+                    if sub is None:
+                        return None
+                    out |= sub
+                elif isinstance(x, ast.Attribute) and isinstance(x.value, ast.Name) and x.value.id == "ast":
+                    out.add(x.attr)
+                elif isinstance(x, ast.Constant) and isinstance(x.value, str):
+                    out.add(x.value)
+                elif isinstance(x, ast.Name) and self.mod.imports.get(x.id, "").startswith("ast."):
+                    out.add(self.mod.imports[x.id].split(".")[-1])
+                else:
+                    return None
+            return out
+        if isinstance(e, ast.BinOp) and isinstance(e.op, (ast.BitOr, ast.Sub)):
+            l, r = self.names(e.left, depth + 1), self.names(e.right, depth + 1)
+            if l is None or r is None:
+                return None
+            return l | r if isinstance(e.op, ast.BitOr) else l - r
+        if isinstance(e, ast.Call) and isinstance(e.func, ast.Attribute) and e.func.attr == "union" and not e.keywords:
+            out2 = self.names(e.func.value, depth + 1)
+            for a in e.args:
+                sub = self.names(a, depth + 1)
+                if sub is None or out2 is None:
+                    return None
+                out2 = out2 | sub
+            return out2
+        if isinstance(e, ast.Name):
+            vals = class_values(self.cls, e.id) or module_values(self.mod.tree, e.id)
+            if len(vals) != 1:
+                return None
+            self.attrs_used.add(e.id)
+            return self.names(vals[0], depth + 1)
+        if isinstance(e, ast.Attribute) and is_class_ref(e.value, self.cls.name):
+            vals = class_values(self.cls, e.attr)
+            if len(vals) != 1:
+                return None
+            self.attrs_used.add(e.attr)
+            return self.names(vals[0], depth + 1)
+        return None
 
 
 def is_self_visit(call: ast.Call, which=("visit",)) -> bool:
@@ -104,60 +214,174 @@ def is_self_visit(call: ast.Call, which=("visit",)) -> bool:
     return isinstance(f, ast.Attribute) and f.attr in which and isinstance(f.value, ast.Name) and f.value.id == "self"
 
 
-def access_path(expr: ast.AST, env: Dict[str, str], node_param: str) -> Optional[str]:
-    """``node.args[*]`` style path of *expr*; loop variables resolved through *env*."""
+IDX = "#idx:"
+
+
+def local_value(fn: Optional[ast.AST], name: str) -> Optional[ast.AST]:
+    """The value of local *name* when it is bound exactly once in *fn* (a plain assignment) and the object is
+    never mutated through that name: reading the name anywhere is reading that value."""
+    if fn is None:
+        return None
+    stores = [n for n in walk_no_nested(fn) if isinstance(n, ast.Name) and n.id == name and isinstance(n.ctx, (ast.Store, ast.Del))]
+    params = {a.arg for a in fn.args.posonlyargs + fn.args.args + fn.args.kwonlyargs} | {a.arg for a in (fn.args.vararg, fn.args.kwarg) if a is not None}
+    if len(stores) != 1 or name in params:
+        return None
+    st = parent(stores[0])
+    if isinstance(st, ast.Assign) and len(st.targets) == 1 and st.targets[0] is stores[0]:
+        val = st.value
+    elif isinstance(st, ast.AnnAssign) and st.target is stores[0] and st.value is not None:
+        val = st.value
+    else:
+        return None
+    if mutation_sites(fn, {name}):
+        return None
+    return val
+
+
+def access_paths(expr: ast.AST, env: Dict[str, Set[str]], node_param: str, fn: Optional[ast.AST] = None, depth: int = 0) -> Optional[Set[str]]:
+    """``node.args[*]`` style paths *expr* denotes (a loop variable over a concatenation denotes several);
+    loop variables are resolved through *env*.  ``x[i]`` is ``x[*]`` only when ``i`` ranges over ``range(len(x))``;
+    any other index is one element (``x[0]``), which covers nothing."""
     if isinstance(expr, ast.Name):
         if expr.id == node_param:
-            return "node"
-        return env.get(expr.id)
+            return {"node"}
+        got = env.get(expr.id)
+        if got is None:
+            val = local_value(fn, expr.id) if depth < 4 else None
+            return access_paths(val, env, node_param, fn, depth + 1) if val is not None else None
+        if any(p.startswith(IDX) for p in got):
+            return None
+        return set(got)
     if isinstance(expr, ast.Attribute):
-        base = access_path(expr.value, env, node_param)
-        return f"{base}.{expr.attr}" if base else None
+        base = access_paths(expr.value, env, node_param, fn, depth)
+        return {f"{b}.{expr.attr}" for b in base} if base else None
     if isinstance(expr, ast.Subscript):
-        base = access_path(expr.value, env, node_param)
-        return f"{base}[*]" if base else None
+        base = access_paths(expr.value, env, node_param, fn, depth)
+        if not base:
+            return None
+        idx = expr.slice
+        if isinstance(idx, ast.Name) and env.get(idx.id) == {IDX + b for b in base}:
+            return {f"{b}[*]" for b in base}
+        try:
+            key = ast.unparse(idx)
+        except Exception:  # pragma: no cover
+            key = "?"
+        return {f"{b}[{key}]" for b in base}
     return None
+
+
+def access_path(expr: ast.AST, env: Dict[str, Set[str]], node_param: str, fn: Optional[ast.AST] = None) -> Optional[str]:
+    got = access_paths(expr, env, node_param, fn)
+    return next(iter(got)) if got and len(got) == 1 else None
+
+
+def element_paths(it: ast.AST, env: Dict[str, Set[str]], node_param: str, fn: Optional[ast.AST] = None, depth: int = 0) -> Optional[Set[str]]:
+    """Paths of the elements produced by iterating *it* completely (None: not understood)."""
+    if isinstance(it, ast.Name) and it.id != node_param and it.id not in env and depth < 4:
+        # a named sequence (bound once, never mutated); a one-shot iterator bound to a name may already be consumed
+        val = local_value(fn, it.id)
+        one_shot = isinstance(val, ast.GeneratorExp) or (isinstance(val, ast.Call) and call_name(val) in ("iter", "reversed", "map", "filter", "zip", "itertools.chain", "chain"))
+        return element_paths(val, env, node_param, fn, depth + 1) if val is not None and not one_shot else None
+    if isinstance(it, ast.Call) and not it.keywords:
+        nm = call_name(it)
+        if nm in ("list", "tuple", "iter", "reversed", "sorted") and len(it.args) == 1:
+            return element_paths(it.args[0], env, node_param, fn)
+        if nm in ("itertools.chain", "chain") and it.args:
+            out: Set[str] = set()
+            for a in it.args:
+                sub = element_paths(a, env, node_param, fn)
+                if sub is None:
+                    return None
+                out |= sub
+            return out
+        if nm == "range" and len(it.args) == 1 and isinstance(it.args[0], ast.Call) and call_name(it.args[0]) == "len" and len(it.args[0].args) == 1:
+            base = access_paths(it.args[0].args[0], env, node_param, fn)
+            return {IDX + b for b in base} if base else None
+    if isinstance(it, ast.BinOp) and isinstance(it.op, ast.Add):
+        l, r = element_paths(it.left, env, node_param, fn), element_paths(it.right, env, node_param, fn)
+        return (l | r) if l is not None and r is not None else None
+    if isinstance(it, (ast.List, ast.Tuple)):
+        out2: Set[str] = set()
+        for e in it.elts:
+            sub = element_paths(e.value, env, node_param, fn) if isinstance(e, ast.Starred) else access_paths(e, env, node_param, fn)
+            if sub is None:
+                return None
+            out2 |= sub
+        return out2
+    if isinstance(it, (ast.ListComp, ast.GeneratorExp)) and len(it.generators) == 1:
+        gen = it.generators[0]
+        if not gen.ifs and isinstance(gen.target, ast.Name) and not gen.is_async:
+            src = element_paths(gen.iter, env, node_param, fn)
+            if src is None:
+                return None
+            env2 = dict(env)
+            env2[gen.target.id] = src
+            return access_paths(it.elt, env2, node_param, fn)
+        return None
+    base = access_paths(it, env, node_param, fn)
+    return {f"{b}[*]" for b in base} if base else None
 
 
 def covering_statements(func: ast.FunctionDef, node_param: str) -> Dict[int, Set[str]]:
     """Map id(stmt) -> access paths that statement visits (on its own normal completion)."""
     out: Dict[int, Set[str]] = {}
 
-    def visits_in_body(body: List[ast.stmt], env: Dict[str, str]) -> Set[str]:
+    def visits_in_body(body: List[ast.stmt], env: Dict[str, Set[str]]) -> Set[str]:
         paths: Set[str] = set()
         for st in body:
             paths |= stmt_paths(st, env)
         return paths
 
-    def stmt_paths(st: ast.stmt, env: Dict[str, str]) -> Set[str]:
+    def call_paths(c: ast.AST, env: Dict[str, Set[str]]) -> Set[str]:
+        """Paths visited by evaluating the expression *c* (a visit call, or an eager comprehension of them)."""
+        if isinstance(c, ast.Call):
+            if is_self_visit(c, ("visit",)) and len(c.args) == 1 and not c.keywords:
+                return access_paths(c.args[0], env, node_param, func) or set()
+            if is_self_visit(c, ("generic_visit",)) and len(c.args) == 1 and not c.keywords:
+                return {p + ".*" for p in (access_paths(c.args[0], env, node_param, func) or set())}
+            # list(<generator of visits>) / list(map(self.visit, xs)): the iteration is forced
+            if call_name(c) in ("list", "tuple", "set") and len(c.args) == 1 and not c.keywords:
+                a = c.args[0]
+                if isinstance(a, ast.GeneratorExp):
+                    return comp_paths(a, env)
+                if isinstance(a, ast.Call) and call_name(a) == "map" and len(a.args) == 2 and dotted_name(a.args[0]) == "self.visit":
+                    return element_paths(a.args[1], env, node_param, func) or set()
+        if isinstance(c, (ast.ListComp, ast.SetComp)):
+            return comp_paths(c, env)
+        return set()
+
+    def comp_paths(comp: ast.AST, env: Dict[str, Set[str]]) -> Set[str]:
+        if len(comp.generators) != 1:
+            return set()
+        gen = comp.generators[0]
+        if gen.ifs or not isinstance(gen.target, ast.Name) or gen.is_async:
+            return set()
+        src = element_paths(gen.iter, env, node_param, func)
+        if not src:
+            return set()
+        env2 = dict(env)
+        env2[gen.target.id] = src
+        return call_paths(comp.elt, env2)
+
+    def stmt_paths(st: ast.stmt, env: Dict[str, Set[str]]) -> Set[str]:
         paths: Set[str] = set()
-        if isinstance(st, ast.Expr) and isinstance(st.value, ast.Call):
-            c = st.value
-            if is_self_visit(c, ("visit",)) and c.args:
-                p = access_path(c.args[0], env, node_param)
-                if p:
-                    paths.add(p)
-            elif is_self_visit(c, ("generic_visit",)) and c.args:
-                p = access_path(c.args[0], env, node_param)
-                if p:
-                    paths.add(p + ".*")
-        if isinstance(st, ast.Expr) and isinstance(st.value, (ast.ListComp, ast.SetComp)):
-            comp = st.value
-            if len(comp.generators) == 1 and not comp.generators[0].ifs and isinstance(comp.generators[0].target, ast.Name):
-                it = access_path(comp.generators[0].iter, env, node_param)
-                if it and isinstance(comp.elt, ast.Call) and is_self_visit(comp.elt) and comp.elt.args:
-                    env2 = dict(env)
-                    env2[comp.generators[0].target.id] = it + "[*]"
-                    p = access_path(comp.elt.args[0], env2, node_param)
-                    if p:
-                        paths.add(p)
-        if isinstance(st, ast.For) and isinstance(st.target, ast.Name) and not st.orelse:
-            it = access_path(st.iter, env, node_param)
-            if it:
-                env2 = dict(env)
-                env2[st.target.id] = it + "[*]"
+        if isinstance(st, (ast.Expr, ast.Return)) and st.value is not None:
+            paths |= call_paths(st.value, env)
+        elif isinstance(st, ast.Assign) and all(isinstance(t, ast.Name) for t in st.targets):
+            paths |= call_paths(st.value, env)
+        if isinstance(st, ast.For) and not st.orelse:
+            env2 = dict(env)
+            src: Optional[Set[str]] = None
+            if isinstance(st.target, ast.Name):
+                src = element_paths(st.iter, env, node_param, func)
+                env2[st.target.id] = src or set()
+            elif (isinstance(st.target, ast.Tuple) and len(st.target.elts) == 2 and all(isinstance(t, ast.Name) for t in st.target.elts)
+                  and isinstance(st.iter, ast.Call) and call_name(st.iter) == "enumerate" and len(st.iter.args) == 1 and not st.iter.keywords):
+                src = element_paths(st.iter.args[0], env, node_param, func)
+                env2[st.target.elts[1].id] = src or set()
+            if src:
                 # only unconditional top-level statements of the loop body count
-                body_ok = not any(isinstance(n, (ast.Break, ast.Continue)) for s in st.body for n in ast.walk(s))
+                body_ok = not any(isinstance(n, (ast.Break, ast.Continue, ast.Return)) for s in st.body for n in ast.walk(s))
                 if body_ok:
                     paths |= visits_in_body(st.body, env2)
         return paths
@@ -169,7 +393,7 @@ def covering_statements(func: ast.FunctionDef, node_param: str) -> Dict[int, Set
                 out[id(st)] = p
             for attr in ("body", "orelse", "finalbody"):
                 sub = getattr(st, attr, None)
-                if isinstance(sub, list) and not isinstance(st, ast.For):
+                if isinstance(sub, list) and not isinstance(st, (ast.For,) + FuncNode + (ast.ClassDef,)):
                     walk(sub)
             if isinstance(st, ast.Try):
                 for h in st.handlers:
@@ -202,10 +426,61 @@ def field_covered(kind: str, field: Tuple[str, str, str], must: Set[str], prefix
     return False
 
 
+def _neg(atom: Callable[[ast.AST], Optional[bool]]) -> Callable[[ast.AST], Optional[bool]]:
+    def f(e: ast.AST) -> Optional[bool]:
+        v = atom(e)
+        return None if v is None else (not v)
+    return f
+
+
+def _type_of_arg(e: ast.AST) -> Optional[ast.AST]:
+    """x for ``type(x)`` / ``x.__class__``."""
+    if isinstance(e, ast.Call) and isinstance(e.func, ast.Name) and e.func.id == "type" and len(e.args) == 1 and not e.keywords:
+        return e.args[0]
+    if isinstance(e, ast.Attribute) and e.attr == "__class__":
+        return e.value
+    return None
+
+
+def _is_empty_dict(e: ast.AST) -> bool:
+    return (isinstance(e, ast.Dict) and not e.keys) or (isinstance(e, ast.Call) and call_name(e) == "dict" and not e.args and not e.keywords)
+
+
+def _caller_funcs(e: ast.AST, p: Optional[str]) -> bool:
+    """Is *e* the caller-supplied function table (parameter *p*), possibly defaulted to an empty dict / copied?"""
+    if p is None:
+        return False
+    if isinstance(e, ast.Name):
+        return e.id == p
+    if isinstance(e, ast.BoolOp) and isinstance(e.op, ast.Or) and len(e.values) == 2:
+        return _caller_funcs(e.values[0], p) and _is_empty_dict(e.values[1])
+    if isinstance(e, ast.IfExp):
+        test_names = {n.id for n in ast.walk(e.test) if isinstance(n, ast.Name)}
+        arms = [e.body, e.orelse]
+        return test_names <= {p} and all(_caller_funcs(a, p) or _is_empty_dict(a) for a in arms) and any(_caller_funcs(a, p) for a in arms)
+    if isinstance(e, ast.Call) and call_name(e) == "dict" and len(e.args) == 1 and not e.keywords:
+        return _caller_funcs(e.args[0], p)
+    if isinstance(e, ast.Call) and isinstance(e.func, ast.Attribute) and e.func.attr in ("items", "copy") and not e.args and not e.keywords:
+        return _caller_funcs(e.func.value, p)
+    return False
+
+
+def _enclosing(node: ast.AST, stop: ast.AST) -> ast.AST:
+    """Innermost def/lambda around *node* (inside the detached normal form *stop*), else *stop*."""
+    for a in ancestors(node):
+        if a is stop:
+            return stop
+        if isinstance(a, ANYFUNC):
+            return a
+    return stop
+
+
 def run(repo: Repo, R: Report) -> None:
     mod = repo.module(SAFE)
-    visitor = repo.cls(SAFE, "_SafeVisitor")
+    visitor = repo.cls(SAFE, VISITOR)
+    evaluator = repo.cls(SAFE, EVALUATOR)
     fn_rel = SAFE
+    tables = Tables(mod, visitor)
 
     R.assume(
         "ast.NodeVisitor.visit dispatches on type(node).__name__ and NodeVisitor.generic_visit visits every child field (CPython stdlib)",
@@ -213,103 +488,64 @@ def run(repo: Repo, R: Report) -> None:
         "the grammar tables (ast.<Node>.__doc__/_fields) of the running interpreter describe the trees ast.parse can produce",
     )
 
-    # ---------------- D2 whitelist tables ---------------------------------
-    r_wl = R.rule("C11-D2-whitelist", "every node kind the visitor can accept (whitelist set + custom handlers) is in the documented safe grammar", 20)
-    allowed_val = class_attr(visitor, "_ALLOWED_NODES")
-    allowed = set_literal_names(allowed_val) if allowed_val is not None else None
-    if allowed is None:
-        raise AnalysisError("_SafeVisitor._ALLOWED_NODES is not a literal set of ast classes")
+    # normal forms: named sub-expressions (``func = node.func``), hoisted constants and extracted helpers are seen through
     handlers: Dict[str, ast.FunctionDef] = {}
+    alias_handlers: Dict[str, ast.AST] = {}
     for st in visitor.body:
         if isinstance(st, FuncNode) and st.name.startswith("visit_"):
-            # normal form: named sub-expressions (``func = node.func``), hoisted constants and extracted helpers are seen through
-            handlers[st.name[len("visit_"):]] = nfunc(repo, SAFE, f"_SafeVisitor.{st.name}", copyprop="all")
-    for name in sorted(allowed):
-        R.check(name in DOCUMENTED_NODES, r_wl, fn_rel, "_SafeVisitor", f"_ALLOWED_NODES: ast.{name}",
-                f"ast.{name} is accepted but is not in the documented safe grammar", getattr(allowed_val, "lineno", 0))
-    for name, h in sorted(handlers.items()):
-        if hasattr(ast, name):
-            R.check(name in DOCUMENTED_NODES, r_wl, fn_rel, f"_SafeVisitor.visit_{name}", f"def visit_{name}",
-                    f"a custom handler bypasses generic_visit's whitelist test, so ast.{name} is accepted; it is not in the documented safe grammar", h.lineno)
-    # dispatch must be the stdlib's
-    r_disp = R.rule("C11-D1-dispatch", "_SafeVisitor inherits ast.NodeVisitor.visit unchanged (completeness argument relies on stdlib dispatch)", 1)
-    base_names = {dotted_name(b) for b in visitor.bases}
-    own = {st.name for st in visitor.body if isinstance(st, FuncNode)}
-    R.check("ast.NodeVisitor" in base_names or "NodeVisitor" in base_names, r_disp, fn_rel, "_SafeVisitor", "class _SafeVisitor(bases)",
-            "not a subclass of ast.NodeVisitor", visitor.lineno)
-    if "visit" in own:
-        R.violation(r_disp, fn_rel, "_SafeVisitor.visit", "def visit", "visit() is overridden: per-kind dispatch is no longer the stdlib's", visitor.lineno)
+            handlers[st.name[len("visit_"):]] = nfunc(repo, SAFE, f"{VISITOR}.{st.name}", copyprop="all")
+        elif isinstance(st, (ast.Assign, ast.AnnAssign)):
+            for t in (st.targets if isinstance(st, ast.Assign) else [st.target]):
+                if isinstance(t, ast.Name) and t.id.startswith("visit_"):
+                    alias_handlers[t.id[len("visit_"):]] = st
+    gv: Optional[ast.FunctionDef] = None
+    if any(isinstance(st, FuncNode) and st.name == "generic_visit" for st in visitor.body):
+        gv = nfunc(repo, SAFE, f"{VISITOR}.generic_visit", copyprop="all")
 
-    r_funcs = R.rule("C11-D2-functions", "callable whitelist and evaluation environment are the documented eight builtins, bound to themselves", 9)
-    funcs_val = class_attr(visitor, "_ALLOWED_FUNCS")
-    funcs = set_literal_names(funcs_val) if funcs_val is not None else None
-    if funcs is None:
-        raise AnalysisError("_SafeVisitor._ALLOWED_FUNCS is not a literal set of strings")
-    for f in sorted(funcs):
-        R.check(f in DOCUMENTED_FUNCS, r_funcs, fn_rel, "_SafeVisitor", f"_ALLOWED_FUNCS: {f!r}",
-                f"call target {f!r} is whitelisted but is not one of the documented functions", getattr(funcs_val, "lineno", 0))
-    ev_init = nfunc(repo, SAFE, "ExpressionEvaluator.__init__", copyprop="all")
-    env_dicts = [n for n in walk_no_nested(ev_init) if isinstance(n, ast.Dict)]
-    if not env_dicts:
-        raise AnalysisError("ExpressionEvaluator.__init__: environment dict literal not found")
-    env_keys: Set[str] = set()
-    for d in env_dicts:
-        for k, v in zip(d.keys, d.values):
-            if k is None or not isinstance(k, ast.Constant):
-                R.violation(r_funcs, fn_rel, "ExpressionEvaluator.__init__", norm(d), "environment built from a non-literal key / ** expansion", d.lineno)
-                continue
-            env_keys.add(k.value)
-            good = k.value in DOCUMENTED_FUNCS and isinstance(v, ast.Name) and v.id == k.value
-            R.check(good, r_funcs, fn_rel, "ExpressionEvaluator.__init__", f"env[{k.value!r}] = {norm(v)}",
-                    "evaluation environment binds a name outside the documented function table (or to a different object)", k.lineno)
-    # visitor-accepted call targets must be bound in env (else they fall through to __builtins__)
-    for f in sorted(funcs - env_keys):
-        R.violation(r_funcs, fn_rel, "_SafeVisitor", f"_ALLOWED_FUNCS: {f!r}", "whitelisted call target is not bound in the evaluator environment, so it resolves through __builtins__", getattr(funcs_val, "lineno", 0))
-    # any other mutation of env in __init__ must come from the allowed_funcs parameter only
-    for c in calls_in(ev_init):
-        if call_attr(c) in ("update", "setdefault", "__setitem__") and isinstance(c.func, ast.Attribute) and dotted_name(c.func.value) in ("env", "self.env"):
-            ok = len(c.args) == 1 and isinstance(c.args[0], ast.Name) and c.args[0].id == "allowed_funcs" and not c.keywords
-            R.check(ok, r_funcs, fn_rel, "ExpressionEvaluator.__init__", norm(c), "environment extended from something other than the caller-supplied allowed_funcs", c.lineno)
-    # nobody in the package passes extra functions / a custom evaluator on the YAML path
-    r_callers = R.rule("C11-D2-callers", "no package call site widens the evaluator (ExpressionEvaluator(...) with arguments, or create(expression_evaluator=...))", 1)
-    for m in repo.modules.values():
-        for c in (n for n in ast.walk(m.tree) if isinstance(n, ast.Call)):
-            if call_attr(c) == "ExpressionEvaluator":
-                repo.consulted.add(m.rel)
-                fn = qualname_of(next((a for a in [c] + list(_anc(c)) if isinstance(a, FuncNode)), m.tree)) if True else ""
-                R.check(not c.args and not c.keywords, r_callers, m.rel, fn, norm(c), "evaluator constructed with extra callables", c.lineno)
-            if kwarg(c, "expression_evaluator") is not None:
-                repo.consulted.add(m.rel)
-                R.violation(r_callers, m.rel, "", norm(c), "custom expression evaluator passed inside the package", c.lineno)
-
-    # ---------------- D1 visitor completeness ------------------------------
+    # ---------------- D1 generic_visit: the node-kind whitelist test, found by its role ---------------------
     r_gen = R.rule("C11-D1-generic", "generic_visit rejects kinds outside the whitelist before recursing and then recurses via super().generic_visit(node)", 2)
-    gv = handlers_generic = None
-    for st in visitor.body:
-        if isinstance(st, FuncNode) and st.name == "generic_visit":
-            gv = nfunc(repo, SAFE, "_SafeVisitor.generic_visit", copyprop="all")
+    allowed: Optional[Set[str]] = None
+    allowed_line = visitor.lineno
     if gv is None:
-        R.violation(r_gen, fn_rel, "_SafeVisitor", "def generic_visit", "generic_visit is not overridden: no whitelist test at all", visitor.lineno)
+        R.violation(r_gen, fn_rel, VISITOR, "def generic_visit", "generic_visit is not overridden: no whitelist test at all", visitor.lineno)
     else:
         node_param = gv.args.args[1].arg if len(gv.args.args) > 1 else "node"
         g = CFG(gv)
+        seen_tables: List[Set[str]] = []
 
         def wl_atom(e: ast.AST) -> Optional[bool]:
-            # type(node) in self._ALLOWED_NODES  /  not in
+            # type(node) in <whitelist table>  /  not in   (node.__class__ likewise)
             if isinstance(e, ast.Compare) and len(e.ops) == 1 and isinstance(e.ops[0], (ast.In, ast.NotIn)):
-                left, right = e.left, e.comparators[0]
-                lt = isinstance(left, ast.Call) and call_attr(left) == "type" and len(left.args) == 1 and isinstance(left.args[0], ast.Name) and left.args[0].id == node_param
-                rt = dotted_name(right) in ("self._ALLOWED_NODES", "_SafeVisitor._ALLOWED_NODES", "type(self)._ALLOWED_NODES")
-                if lt and rt:
-                    return isinstance(e.ops[0], ast.In)
+                subject = _type_of_arg(e.left)
+                if isinstance(subject, ast.Name) and subject.id == node_param:
+                    names = tables.names(e.comparators[0])
+                    if names is not None:
+                        seen_tables.append(names)
+                        return isinstance(e.ops[0], ast.In)
             return None
 
         holds, path, guards = returns_only_through(g, wl_atom)
-        R.check(holds and guards > 0, r_gen, fn_rel, "_SafeVisitor.generic_visit", "whitelist test dominates normal return",
+        R.check(holds and guards > 0, r_gen, fn_rel, f"{VISITOR}.generic_visit", "whitelist test dominates normal return",
                 "generic_visit can return normally without `type(node) in _ALLOWED_NODES` having held", gv.lineno, path)
+        if seen_tables:
+            allowed = set().union(*seen_tables)
+
         # recursion on all accepted paths
         def is_super_generic(n) -> bool:
-            if n.ast is None or n.kind != "stmt":
+            if n.ast is None:
+                return False
+            if n.kind == "for" and isinstance(n.ast, ast.For):
+                # for child in ast.iter_child_nodes(node): self.visit(child)   (what the stdlib's generic_visit does)
+                it = n.ast.iter
+                if (isinstance(it, ast.Call) and call_name(it) in ("ast.iter_child_nodes", "iter_child_nodes") and len(it.args) == 1
+                        and isinstance(it.args[0], ast.Name) and it.args[0].id == node_param and isinstance(n.ast.target, ast.Name) and not n.ast.orelse):
+                    tgt = n.ast.target.id
+                    plain = not any(isinstance(x, (ast.Break, ast.Continue, ast.Return)) for s in n.ast.body for x in ast.walk(s))
+                    return plain and any(
+                        isinstance(s, ast.Expr) and isinstance(s.value, ast.Call) and is_self_visit(s.value) and len(s.value.args) == 1
+                        and isinstance(s.value.args[0], ast.Name) and s.value.args[0].id == tgt for s in n.ast.body)
+                return False
+            if n.kind != "stmt" or isinstance(n.ast, FuncNode + (ast.ClassDef,)):
                 return False
             for c in calls_in(n.ast):
                 f = c.func
@@ -321,173 +557,625 @@ def run(repo: Repo, R: Report) -> None:
             return False
 
         bad = g.must_pass([g.entry], [g.ret_exit], is_super_generic)
-        R.check(not bad, r_gen, fn_rel, "_SafeVisitor.generic_visit", "super().generic_visit(node) on every accepting path",
+        R.check(not bad, r_gen, fn_rel, f"{VISITOR}.generic_visit", "super().generic_visit(node) on every accepting path",
                 "an accepted node's children are not visited on some path (no super().generic_visit(node))", gv.lineno, bad[0][1] if bad else None)
 
+    # ---------------- D2 whitelist tables ---------------------------------
+    r_wl = R.rule("C11-D2-whitelist", "every node kind the visitor can accept (whitelist set + custom handlers) is in the documented safe grammar", 20)
+    if allowed is None:
+        # generic_visit does not test a table we understand (reported above): fall back to the attribute named in the property
+        allowed_val = class_attr(visitor, "_ALLOWED_NODES")
+        allowed = tables.names(allowed_val) if allowed_val is not None else None
+        if allowed is None:
+            if not R.violations():
+                raise AnalysisError("_SafeVisitor: the node whitelist is not a table of ast classes that can be resolved")
+            allowed = set()
+    for a in sorted(tables.attrs_used):
+        vals = class_values(visitor, a) or module_values(mod.tree, a)
+        if vals:
+            allowed_line = getattr(vals[0], "lineno", allowed_line)
+            break
+    for name in sorted(allowed):
+        R.check(name in DOCUMENTED_NODES, r_wl, fn_rel, VISITOR, f"_ALLOWED_NODES: ast.{name}",
+                f"ast.{name} is accepted but is not in the documented safe grammar", allowed_line)
+    for name, h in sorted(handlers.items()):
+        if hasattr(ast, name):
+            R.check(name in DOCUMENTED_NODES, r_wl, fn_rel, f"{VISITOR}.visit_{name}", f"def visit_{name}",
+                    f"a custom handler bypasses generic_visit's whitelist test, so ast.{name} is accepted; it is not in the documented safe grammar", h.lineno)
+    for name, st in sorted(alias_handlers.items()):
+        if hasattr(ast, name) and name not in handlers:
+            # visit_<Kind> = <some callable>: the kind no longer reaches generic_visit's whitelist test / its children are not checked
+            R.violation(r_wl, fn_rel, VISITOR, norm(st), f"visit_{name} is bound in the class body: ast.{name} bypasses the whitelist test and no field obligations can be decided for it", st.lineno)
+    # dispatch must be the stdlib's
+    r_disp = R.rule("C11-D1-dispatch", "_SafeVisitor inherits ast.NodeVisitor.visit unchanged (completeness argument relies on stdlib dispatch)", 1)
+    base_names = {dotted_name(b) for b in visitor.bases}
+    own = {st.name for st in visitor.body if isinstance(st, FuncNode)}
+    R.check("ast.NodeVisitor" in base_names or "NodeVisitor" in base_names, r_disp, fn_rel, VISITOR, "class _SafeVisitor(bases)",
+            "not a subclass of ast.NodeVisitor", visitor.lineno)
+    if "visit" in own:
+        R.violation(r_disp, fn_rel, f"{VISITOR}.visit", "def visit", "visit() is overridden: per-kind dispatch is no longer the stdlib's", visitor.lineno)
+
+    # ---------------- normal form of compile(): the attribute used as eval() globals, by role ---------------
+    ncomp = nfunc(repo, SAFE, COMPILE_QN, copyprop="all")
+    evals = [c for c in ast.walk(ncomp) if isinstance(c, ast.Call) and isinstance(c.func, ast.Name) and c.func.id == "eval"]
+    env_attr = "env"
+    for c in evals:
+        if len(c.args) >= 2 and isinstance(c.args[1], ast.Attribute) and isinstance(c.args[1].value, ast.Name) and c.args[1].value.id == "self":
+            env_attr = c.args[1].attr
+
+    # ---------------- D1 fields + the function-name table, by role -------------------------------------------
+    r_funcs = R.rule("C11-D2-functions", "callable whitelist and evaluation environment are the documented eight builtins, bound to themselves", 9)
     r_cov = R.rule("C11-D1-fields", "every custom visit_<Kind> handler visits, or constrains to a checked leaf, every child field of <Kind> on every normally-returning path", 2)
+    funcs: Optional[Set[str]] = None
+    name_attrs: Set[str] = set()
     for kind, h in sorted(handlers.items()):
         if not hasattr(ast, kind):
             continue
         node_param = h.args.args[1].arg if len(h.args.args) > 1 else "node"
         g = CFG(h)
         cover = covering_statements(h, node_param)
-        # access paths visited on every normally-returning path
+        # a field is covered when every normally-returning path passes a statement (or, for product nodes such as
+        # keyword, a set of statements) that visits it; a path that skips the loop because the sequence is known
+        # to be empty there has nothing to visit
+        def empty_edges(seq: str, g=g, node_param=node_param, h=h) -> Set[Tuple[int, str]]:
+            def nonempty(e: ast.AST) -> Optional[bool]:
+                if access_paths(e, {}, node_param, h) == {seq}:
+                    return True
+                if isinstance(e, ast.Call) and call_name(e) == "len" and len(e.args) == 1 and access_paths(e.args[0], {}, node_param, h) == {seq}:
+                    return True
+                if isinstance(e, ast.Compare) and len(e.ops) == 1 and isinstance(e.left, ast.Call) and nonempty(e.left) and isinstance(e.comparators[0], ast.Constant) and e.comparators[0].value == 0:
+                    if isinstance(e.ops[0], (ast.Gt, ast.NotEq)):
+                        return True
+                    if isinstance(e.ops[0], ast.Eq):
+                        return False
+                return None
+
+            out: Set[Tuple[int, str]] = set()
+            for n in g.nodes:
+                if n.kind == "if" and n.part is not None:
+                    for lab in edges_guaranteeing(n.part, _neg(nonempty)):
+                        out.add((n.id, lab))
+            return out
+
+        def always_passes(stmts: Set[int], blocked_edges: Set[Tuple[int, str]], g=g) -> bool:
+            return bool(stmts) and not g.must_pass([g.entry], [g.ret_exit], lambda n: n.ast is not None and id(n.ast) in stmts, blocked_edges=blocked_edges)
+
         all_paths: Set[str] = set().union(*cover.values()) if cover else set()
         must: Set[str] = set()
         for p in all_paths:
             stmts = {sid for sid, ps in cover.items() if p in ps}
-            bad = g.must_pass([g.entry], [g.ret_exit], lambda n, stmts=stmts: n.ast is not None and id(n.ast) in stmts)
-            if not bad:
+            if always_passes(stmts, empty_edges(p.split("[*]")[0]) if "[*]" in p else set()):
                 must.add(p)
         for field in node_fields(kind):
             ftype, mult, fname = field
             stmt = f"visit_{kind}: field {fname} ({ftype}{mult})"
-            if field_covered(kind, field, must):
-                R.ok(r_cov, fn_rel, f"_SafeVisitor.visit_{kind}", stmt, "visited on every accepting path", h.lineno)
+            whole = {sid for sid, ps in cover.items() if field_covered(kind, field, ps)}  # statements that cover the field on their own
+            if always_passes(whole, empty_edges(f"node.{fname}") if mult == "*" else set()) or field_covered(kind, field, must):
+                R.ok(r_cov, fn_rel, f"{VISITOR}.visit_{kind}", stmt, "visited on every accepting path", h.lineno)
                 continue
             # constrained to a checked leaf?
+            if ftype in ("operator", "unaryop", "boolop", "cmpop") and mult == "":
+                # an operator position holds a field-less node: on a path where it is known to be one of the
+                # whitelisted operator kinds there is nothing below it to visit
+                def leaf_kind(e: ast.AST, fname=fname) -> Optional[bool]:
+                    subject = kinds_arg = None
+                    if isinstance(e, ast.Call) and isinstance(e.func, ast.Name) and e.func.id == "isinstance" and len(e.args) == 2:
+                        subject, kinds_arg = e.args
+                    elif isinstance(e, ast.Compare) and len(e.ops) == 1 and isinstance(e.ops[0], (ast.Is, ast.Eq)) and _type_of_arg(e.left) is not None:
+                        subject, kinds_arg = _type_of_arg(e.left), e.comparators[0]
+                    if subject is None or access_path(subject, {}, node_param, h) != f"node.{fname}":
+                        return None
+                    ks = kinds_arg.elts if isinstance(kinds_arg, ast.Tuple) else [kinds_arg]
+                    names = {(dotted_name(k) or "?").split(".")[-1] for k in ks}
+                    return True if names <= (DOCUMENTED_NODES & (allowed or set())) else None
+
+                leaf_edges = {(n.id, lab) for n in g.nodes if n.kind == "if" and n.part is not None for lab in edges_guaranteeing(n.part, leaf_kind)}
+                if leaf_edges and not g.must_pass([g.entry], [g.ret_exit], lambda n: n.ast is not None and id(n.ast) in whole, blocked_edges=leaf_edges):
+                    R.ok(r_cov, fn_rel, f"{VISITOR}.visit_{kind}", stmt, "visited, or known to be a whitelisted operator, on every accepting path", h.lineno)
+                    continue
             if kind == "Call" and fname == "func":
+                func_tables: List[Set[str]] = []
+
                 def func_is_name(e: ast.AST) -> Optional[bool]:
-                    if isinstance(e, ast.Call) and call_attr(e) == "isinstance" and len(e.args) == 2:
-                        if access_path(e.args[0], {}, node_param) == "node.func" and dotted_name(e.args[1]) in ("ast.Name", "Name"):
+                    if isinstance(e, ast.Call) and call_attr(e) == "isinstance" and len(e.args) == 2 and isinstance(e.func, ast.Name):
+                        cls_arg = e.args[1]
+                        if isinstance(cls_arg, ast.Tuple) and len(cls_arg.elts) == 1:
+                            cls_arg = cls_arg.elts[0]
+                        if access_path(e.args[0], {}, node_param, h) == "node.func" and dotted_name(cls_arg) in ("ast.Name", "Name"):
                             return True
+                    if isinstance(e, ast.Compare) and len(e.ops) == 1 and isinstance(e.ops[0], (ast.Is, ast.IsNot, ast.Eq, ast.NotEq)):
+                        subject = _type_of_arg(e.left)
+                        if subject is not None and access_path(subject, {}, node_param, h) == "node.func" and dotted_name(e.comparators[0]) in ("ast.Name", "Name"):
+                            return isinstance(e.ops[0], (ast.Is, ast.Eq))
                     return None
 
                 def func_in_funcs(e: ast.AST) -> Optional[bool]:
                     if isinstance(e, ast.Compare) and len(e.ops) == 1 and isinstance(e.ops[0], (ast.In, ast.NotIn)):
-                        if access_path(e.left, {}, node_param) == "node.func.id" and dotted_name(e.comparators[0]) in ("self._ALLOWED_FUNCS", "_SafeVisitor._ALLOWED_FUNCS"):
-                            return isinstance(e.ops[0], ast.In)
+                        if access_path(e.left, {}, node_param, h) == "node.func.id":
+                            names = tables.names(e.comparators[0])
+                            if names is not None:
+                                func_tables.append(names)
+                                return isinstance(e.ops[0], ast.In)
                     return None
 
                 h1, p1, g1 = returns_only_through(g, func_is_name)
                 h2, p2, g2 = returns_only_through(g, func_in_funcs)
-                R.check(h1 and h2 and g1 and g2, r_cov, fn_rel, "_SafeVisitor.visit_Call", stmt,
+                R.check(bool(h1 and h2 and g1 and g2), r_cov, fn_rel, f"{VISITOR}.visit_Call", stmt,
                         "visit_Call can return normally for a call whose target is not a plain Name in _ALLOWED_FUNCS", h.lineno, p1 or p2)
+                if func_tables:
+                    funcs = set().union(*func_tables)
                 continue
             if kind == "Name":
                 continue
-            R.violation(r_cov, fn_rel, f"_SafeVisitor.visit_{kind}", stmt,
+            R.violation(r_cov, fn_rel, f"{VISITOR}.visit_{kind}", stmt,
                         f"child position {kind}.{fname} is neither visited nor constrained: any expression there bypasses the whitelist", h.lineno)
         if kind == "Name":
             def name_allowed(e: ast.AST) -> Optional[bool]:
                 if isinstance(e, ast.Compare) and len(e.ops) == 1 and isinstance(e.ops[0], (ast.In, ast.NotIn)):
-                    if access_path(e.left, {}, node_param) == "node.id" and dotted_name(e.comparators[0]) == "self.allowed_names":
+                    right = e.comparators[0]
+                    if (access_path(e.left, {}, node_param, h) == "node.id" and isinstance(right, ast.Attribute)
+                            and isinstance(right.value, ast.Name) and right.value.id == "self" and not class_values(visitor, right.attr)):
+                        name_attrs.add(right.attr)
                         return isinstance(e.ops[0], ast.In)
                 return None
 
             holds, path, guards = returns_only_through(g, name_allowed)
-            R.check(holds and guards > 0, r_cov, fn_rel, "_SafeVisitor.visit_Name", "visit_Name: id in self.allowed_names dominates normal return",
+            R.check(holds and guards > 0, r_cov, fn_rel, f"{VISITOR}.visit_Name", "visit_Name: id in self.allowed_names dominates normal return",
                     "visit_Name can accept a name that is not a declared sweep variable", h.lineno, path)
-    # allowed_names attribute is exactly the constructor argument
-    vinit = next((st for st in visitor.body if isinstance(st, FuncNode) and st.name == "__init__"), None)
-    r_names = R.rule("C11-D2-names", "the visitor's name whitelist is exactly the caller's set of sweep variables", 1)
-    if vinit is None:
-        raise AnalysisError("_SafeVisitor.__init__ vanished")
-    stores = [n for n in walk_no_nested(vinit) if isinstance(n, ast.Assign) and any(dotted_name(t) == "self.allowed_names" for t in n.targets)]
-    for s in stores:
-        v = s.value
-        ok = (isinstance(v, ast.Name) and v.id == "allowed_names") or (
-            isinstance(v, ast.Call) and call_attr(v) in ("set", "frozenset") and len(v.args) == 1 and isinstance(v.args[0], ast.Name) and v.args[0].id == "allowed_names")
-        R.check(ok, r_names, fn_rel, "_SafeVisitor.__init__", norm(s), "name whitelist is not the constructor argument unchanged", s.lineno)
-    if not stores:
-        R.violation(r_names, fn_rel, "_SafeVisitor.__init__", "self.allowed_names = ...", "allowed_names never stored", vinit.lineno)
-    # other writers of allowed_names anywhere in the class
-    for st in visitor.body:
+
+    # ---------------- D2 functions: the call-target table and the evaluation environment ----------------------
+    funcs_line = visitor.lineno
+    if funcs is None:
+        funcs_val = class_attr(visitor, "_ALLOWED_FUNCS")
+        funcs = tables.names(funcs_val) if funcs_val is not None else None
+        if funcs is None:
+            if not R.violations():
+                raise AnalysisError("_SafeVisitor: the call-target whitelist is not a table of strings that can be resolved")
+            funcs = set()
+    fv = class_attr(visitor, "_ALLOWED_FUNCS")
+    if fv is not None:
+        funcs_line = getattr(fv, "lineno", funcs_line)
+    for f in sorted(funcs):
+        R.check(f in DOCUMENTED_FUNCS, r_funcs, fn_rel, VISITOR, f"_ALLOWED_FUNCS: {f!r}",
+                f"call target {f!r} is whitelisted but is not one of the documented functions", funcs_line)
+
+    ev_init = nfunc(repo, SAFE, f"{EVALUATOR}.__init__", copyprop="all")
+    ev_params = [a.arg for a in ev_init.args.posonlyargs + ev_init.args.args + ev_init.args.kwonlyargs]
+    funcs_param = ev_params[1] if len(ev_params) > 1 else None
+    env_keys: Set[str] = set()
+    ev_tables = Tables(mod, evaluator)
+    INIT = f"{EVALUATOR}.__init__"
+
+    def binding(k: str, v: ast.AST, line: int) -> None:
+        env_keys.add(k)
+        good = k in DOCUMENTED_FUNCS and ((isinstance(v, ast.Name) and v.id == k) or (dotted_name(v) == f"builtins.{k}" and mod.imports.get("builtins") == "builtins"))
+        R.check(good, r_funcs, fn_rel, INIT, f"env[{k!r}] = {norm(v)}",
+                "evaluation environment binds a name outside the documented function table (or to a different object)", line)
+
+    def class_level_dict(e: ast.AST) -> Optional[ast.AST]:
+        """The dict literal a class attribute / module name of the evaluator is bound to (exactly once)."""
+        vals: List[ast.AST] = []
+        if isinstance(e, ast.Attribute) and is_class_ref(e.value, EVALUATOR):
+            vals = class_values(evaluator, e.attr)
+            nm = e.attr
+        elif isinstance(e, ast.Name) and e.id not in ev_params and not assigned_value(ev_init, e.id):
+            vals = module_values(mod.tree, e.id)
+            nm = e.id
+        if len(vals) == 1 and (isinstance(vals[0], ast.Dict) or (isinstance(vals[0], ast.Call) and call_name(vals[0]) == "dict")):
+            ev_tables.attrs_used.add(nm)
+            return vals[0]
+        return None
+
+    checked: Set[int] = set()
+
+    def env_source(e: ast.AST, depth: int = 0) -> bool:
+        """*e* evaluates to a mapping made only of checked dict literals and the caller's table; the literals
+        met on the way are checked binding by binding."""
+        if depth > 6:
+            return False
+        if _caller_funcs(e, funcs_param):
+            return True
+        if isinstance(e, ast.Dict):
+            if id(e) in checked:
+                return True
+            checked.add(id(e))
+            ok = True
+            for k, v in zip(e.keys, e.values):
+                if k is None:
+                    if not env_source(v, depth + 1):
+                        R.violation(r_funcs, fn_rel, INIT, norm(e), f"environment spreads `{norm(v)}`, which is neither the documented table nor the caller's allowed_funcs", e.lineno)
+                        ok = False
+                elif isinstance(k, ast.Constant) and isinstance(k.value, str):
+                    binding(k.value, v, k.lineno)
+                else:
+                    R.violation(r_funcs, fn_rel, INIT, norm(e), "environment built from a non-literal key / ** expansion", e.lineno)
+                    ok = False
+            return ok
+        if isinstance(e, ast.Call) and call_name(e) == "dict":
+            if id(e) in checked:
+                return True
+            checked.add(id(e))
+            ok = True
+            for a in e.args:
+                if not env_source(a, depth + 1):
+                    R.violation(r_funcs, fn_rel, INIT, norm(e), f"environment copied from `{norm(a)}`, which is neither the documented table nor the caller's allowed_funcs", e.lineno)
+                    ok = False
+            for kw in e.keywords:
+                if kw.arg is None:
+                    if not env_source(kw.value, depth + 1):
+                        R.violation(r_funcs, fn_rel, INIT, norm(e), f"environment spreads `{norm(kw.value)}`, which is neither the documented table nor the caller's allowed_funcs", e.lineno)
+                        ok = False
+                else:
+                    binding(kw.arg, kw.value, e.lineno)
+            return ok
+        if isinstance(e, ast.Call) and isinstance(e.func, ast.Attribute) and e.func.attr == "copy" and not e.args and not e.keywords:
+            return env_source(e.func.value, depth + 1)
+        if isinstance(e, ast.Call) and call_name(e) in ("copy.copy", "copy.deepcopy") and len(e.args) == 1:
+            return env_source(e.args[0], depth + 1)
+        if isinstance(e, ast.BinOp) and isinstance(e.op, ast.BitOr):
+            return env_source(e.left, depth + 1) and env_source(e.right, depth + 1)
+        if isinstance(e, ast.IfExp):
+            return env_source(e.body, depth + 1) and env_source(e.orelse, depth + 1)
+        cd = class_level_dict(e)
+        if cd is not None:
+            return env_source(cd, depth + 1)
+        if isinstance(e, ast.Name):
+            vals = assigned_value(ev_init, e.id)
+            return bool(vals) and all(env_source(v, depth + 1) for v in vals)
+        return False
+
+    env_stores = [n for n in walk_no_nested(ev_init) if isinstance(n, (ast.Assign, ast.AnnAssign)) and n.value is not None
+                  and any(dotted_name(t) == f"self.{env_attr}" for t in (n.targets if isinstance(n, ast.Assign) else [n.target]))]
+    if not env_stores:
+        raise AnalysisError(f"ExpressionEvaluator.__init__: the evaluation environment (self.{env_attr}) is never stored")
+    env_roots: Set[str] = {f"self.{env_attr}"}
+    for s in env_stores:
+        if isinstance(s.value, ast.Name):
+            env_roots.add(s.value.id)
+        if not env_source(s.value):
+            R.violation(r_funcs, fn_rel, INIT, norm(s), "the evaluation environment is not built from the documented function table plus the caller's allowed_funcs", s.lineno)
+    # every other dict literal / dict(k=v) of __init__ is held to the same table (it may reach the environment through an alias)
+    for n in walk_no_nested(ev_init):
+        if isinstance(n, ast.Dict) or (isinstance(n, ast.Call) and call_name(n) == "dict" and (n.keywords or n.args)):
+            env_source(n)
+    if not env_keys:
+        raise AnalysisError("ExpressionEvaluator.__init__: environment dict literal not found")
+    # visitor-accepted call targets must be bound in env (else they fall through to __builtins__)
+    for f in sorted(funcs - env_keys):
+        R.violation(r_funcs, fn_rel, VISITOR, f"_ALLOWED_FUNCS: {f!r}", "whitelisted call target is not bound in the evaluator environment, so it resolves through __builtins__", funcs_line)
+
+    def loop_pair(site: ast.AST, k: ast.AST, v: ast.AST) -> bool:
+        """``for K, V in <caller funcs>.items(): env[K] = V``"""
+        for a in ancestors(site):
+            if isinstance(a, ast.For) and isinstance(a.target, ast.Tuple) and len(a.target.elts) == 2 and all(isinstance(t, ast.Name) for t in a.target.elts):
+                if (isinstance(k, ast.Name) and isinstance(v, ast.Name) and [t.id for t in a.target.elts] == [k.id, v.id]
+                        and isinstance(a.iter, ast.Call) and isinstance(a.iter.func, ast.Attribute) and a.iter.func.attr == "items" and _caller_funcs(a.iter, funcs_param)):
+                    return True
+            if a is ev_init:
+                break
+        return False
+
+    def store_item(site: ast.AST, k: ast.AST, v: ast.AST) -> None:
+        if loop_pair(site, k, v):
+            R.ok(r_funcs, fn_rel, INIT, norm(site), "caller-supplied functions copied one by one", site.lineno)
+        elif isinstance(k, ast.Constant) and isinstance(k.value, str):
+            binding(k.value, v, site.lineno)
+        else:
+            R.violation(r_funcs, fn_rel, INIT, norm(site), "environment extended from something other than the caller-supplied allowed_funcs", site.lineno)
+
+    # any other mutation of env in __init__ must come from the allowed_funcs parameter only
+    for c in calls_in(ev_init):
+        if isinstance(c.func, ast.Attribute) and dotted_name(c.func.value) in env_roots:
+            if c.func.attr == "update":
+                ok = all(env_source(a) for a in c.args)
+                for kw in c.keywords:
+                    if kw.arg is None:
+                        ok = ok and env_source(kw.value)
+                    else:
+                        binding(kw.arg, kw.value, c.lineno)
+                R.check(ok, r_funcs, fn_rel, INIT, norm(c), "environment extended from something other than the caller-supplied allowed_funcs", c.lineno)
+            elif c.func.attr in ("setdefault", "__setitem__") and len(c.args) == 2:
+                store_item(c, c.args[0], c.args[1])
+    for n in walk_no_nested(ev_init):
+        if isinstance(n, (ast.Assign, ast.AugAssign, ast.AnnAssign)):
+            for t in (n.targets if isinstance(n, ast.Assign) else [n.target]):
+                if isinstance(t, ast.Subscript) and dotted_name(t.value) in env_roots:
+                    if isinstance(n, ast.Assign):
+                        store_item(n, t.slice, n.value)
+                    else:
+                        R.violation(r_funcs, fn_rel, INIT, norm(n), "environment entry rewritten in place", n.lineno)
+                elif isinstance(n, ast.AugAssign) and dotted_name(t) in env_roots:
+                    R.check(env_source(n.value), r_funcs, fn_rel, INIT, norm(n), "environment extended from something other than the caller-supplied allowed_funcs", n.lineno)
+    # the environment is written by the constructor only
+    for st in evaluator.body:
         if isinstance(st, FuncNode) and st.name != "__init__":
             for n in ast.walk(st):
-                if isinstance(n, (ast.Assign, ast.AugAssign)):
-                    tg = n.targets if isinstance(n, ast.Assign) else [n.target]
-                    if any(dotted_name(t) == "self.allowed_names" for t in tg):
-                        R.violation(r_names, fn_rel, f"_SafeVisitor.{st.name}", norm(n), "name whitelist rewritten outside __init__", n.lineno)
-                if isinstance(n, ast.Call) and isinstance(n.func, ast.Attribute) and dotted_name(n.func.value) == "self.allowed_names" and n.func.attr in ("add", "update"):
-                    R.violation(r_names, fn_rel, f"_SafeVisitor.{st.name}", norm(n), "name whitelist widened during traversal", n.lineno)
+                hit = False
+                if isinstance(n, ast.Attribute) and n.attr == env_attr and isinstance(n.value, ast.Name) and n.value.id == "self":
+                    p = parent(n)
+                    if isinstance(n.ctx, (ast.Store, ast.Del)):
+                        hit = True
+                    elif isinstance(p, ast.Subscript) and p.value is n and isinstance(p.ctx, (ast.Store, ast.Del)):
+                        hit = True
+                    elif isinstance(p, ast.Attribute) and p.attr in MUTATORS and isinstance(parent(p), ast.Call) and parent(p).func is p and p.attr not in ("pop", "popitem", "clear", "remove", "discard"):
+                        hit = True
+                if hit:
+                    R.violation(r_funcs, fn_rel, qualname_of(st), norm(stmt_of(n)), "the evaluation environment is rewritten outside the constructor", n.lineno)
+
+    # the tables the verdicts above were read from are constants: nobody rebinds or grows them
+    table_attrs = set(tables.attrs_used) | set(ev_tables.attrs_used) | {"_ALLOWED_NODES", "_ALLOWED_FUNCS"}
+    for m in repo.modules.values():
+        for n in ast.walk(m.tree):
+            nm = n.attr if isinstance(n, ast.Attribute) else n.id if isinstance(n, ast.Name) and m is mod else None
+            if nm not in table_attrs:
+                continue
+            p = parent(n)
+            hit = False
+            if isinstance(n, ast.Attribute) and isinstance(n.ctx, (ast.Store, ast.Del)):
+                hit = True
+            elif isinstance(p, ast.Attribute) and p.value is n and p.attr in MUTATORS and isinstance(parent(p), ast.Call) and parent(p).func is p:
+                hit = True
+            elif isinstance(p, ast.Subscript) and p.value is n and isinstance(p.ctx, (ast.Store, ast.Del)):
+                hit = True
+            elif isinstance(p, ast.AugAssign) and p.target is n:
+                hit = True
+            if hit:
+                repo.consulted.add(m.rel)
+                fn = next((a for a in ancestors(n) if isinstance(a, FuncNode)), None)
+                R.violation(r_wl if nm not in ev_tables.attrs_used else r_funcs, m.rel, qualname_of(fn) if fn is not None else "<module>", norm(stmt_of(n)),
+                            f"the whitelist table {nm} is rebound / mutated at run time, so the accepted grammar is not the literal table", n.lineno)
+
+    # nobody in the package passes extra functions / a custom evaluator on the YAML path
+    r_callers = R.rule("C11-D2-callers", "no package call site widens the evaluator (ExpressionEvaluator(...) with arguments, or create(expression_evaluator=...))", 1)
+    for m in repo.modules.values():
+        for c in (n for n in ast.walk(m.tree) if isinstance(n, ast.Call)):
+            if call_attr(c) == EVALUATOR:
+                repo.consulted.add(m.rel)
+                fn = qualname_of(next((a for a in [c] + list(_anc(c)) if isinstance(a, FuncNode)), m.tree))
+                R.check(not c.args and not c.keywords, r_callers, m.rel, fn, norm(c), "evaluator constructed with extra callables", c.lineno)
+            if kwarg(c, "expression_evaluator") is not None:
+                repo.consulted.add(m.rel)
+                R.violation(r_callers, m.rel, "", norm(c), "custom expression evaluator passed inside the package", c.lineno)
+
+    # ---------------- D2 names: the attribute visit_Name tests is exactly the constructor argument -------------
+    r_names = R.rule("C11-D2-names", "the visitor's name whitelist is exactly the caller's set of sweep variables", 1)
+    if not any(isinstance(st, FuncNode) and st.name == "__init__" for st in visitor.body):
+        raise AnalysisError("_SafeVisitor.__init__ vanished")
+    vinit = nfunc(repo, SAFE, f"{VISITOR}.__init__", copyprop="all")
+    vparams = [a.arg for a in vinit.args.posonlyargs + vinit.args.args]
+    ctor_param = vparams[1] if len(vparams) > 1 else "allowed_names"
+    if not name_attrs:
+        name_attrs = {"allowed_names"}
+
+    def param_intact(fn: ast.AST, param: str) -> bool:
+        """The parameter still holds the caller's object: never rebound, never mutated in *fn*."""
+        rebound = any(isinstance(x, ast.Name) and x.id == param and isinstance(x.ctx, (ast.Store, ast.Del)) for x in walk_no_nested(fn))
+        return not rebound and not mutation_sites(fn, {param})
+
+    def names_unchanged(v: ast.AST, param: str, fn: ast.AST, depth: int = 0) -> bool:
+        """*v* is the parameter *param* of *fn* (or a set/frozenset copy of it), possibly through a local bound once."""
+        if isinstance(v, ast.Name):
+            if v.id == param:
+                return param_intact(fn, param)
+            val = local_value(fn, v.id) if depth < 3 else None
+            return val is not None and names_unchanged(val, param, fn, depth + 1)
+        if isinstance(v, ast.Call) and call_name(v) in ("set", "frozenset") and len(v.args) == 1 and not v.keywords:
+            return names_unchanged(v.args[0], param, fn, depth + 1)
+        return False
+
+    for attr in sorted(name_attrs):
+        stores = [n for n in walk_no_nested(vinit) if isinstance(n, (ast.Assign, ast.AnnAssign)) and n.value is not None
+                  and any(dotted_name(t) == f"self.{attr}" for t in (n.targets if isinstance(n, ast.Assign) else [n.target]))]
+        for s in stores:
+            R.check(names_unchanged(s.value, ctor_param, vinit), r_names, fn_rel, f"{VISITOR}.__init__", norm(s), "name whitelist is not the constructor argument unchanged", s.lineno)
+        if not stores:
+            R.violation(r_names, fn_rel, f"{VISITOR}.__init__", f"self.{attr} = ...", "allowed_names never stored", vinit.lineno)
+        # other writers of the name whitelist anywhere in the class
+        for st in visitor.body:
+            if isinstance(st, FuncNode) and st.name != "__init__":
+                for n in ast.walk(st):
+                    if isinstance(n, (ast.Assign, ast.AugAssign, ast.AnnAssign)):
+                        tg = n.targets if isinstance(n, ast.Assign) else [n.target]
+                        if any(dotted_name(t) == f"self.{attr}" for t in tg):
+                            R.violation(r_names, fn_rel, f"{VISITOR}.{st.name}", norm(n), "name whitelist rewritten outside __init__", n.lineno)
+                    if isinstance(n, ast.Call) and isinstance(n.func, ast.Attribute) and dotted_name(n.func.value) == f"self.{attr}" and n.func.attr in ("add", "update"):
+                        R.violation(r_names, fn_rel, f"{VISITOR}.{st.name}", norm(n), "name whitelist widened during traversal", n.lineno)
+        for n in walk_no_nested(vinit):
+            if isinstance(n, ast.Call) and isinstance(n.func, ast.Attribute) and dotted_name(n.func.value) in (f"self.{attr}", ctor_param) and n.func.attr in ("add", "update"):
+                R.violation(r_names, fn_rel, f"{VISITOR}.__init__", norm(n), "name whitelist widened in the constructor", n.lineno)
 
     # ---------------- D3 validate before evaluate ---------------------------
     r_ord = R.rule("C11-D3-order", "compile()/eval() are dominated by _SafeVisitor(allowed_names).visit(tree) on the very tree that is compiled, and a rejection cannot be swallowed", 5)
-    comp = repo.func(SAFE, "ExpressionEvaluator.compile")
+    comp = ncomp
     g = CFG(comp)
     params = [a.arg for a in comp.args.args]
     if len(params) < 3:
         raise AnalysisError("ExpressionEvaluator.compile signature changed")
     names_param = params[2]
 
-    def visit_calls(n) -> List[ast.Call]:
-        if n.ast is None or n.kind not in ("stmt",):
-            return []
-        out = []
-        for c in calls_in(n.ast):
-            f = c.func
-            if isinstance(f, ast.Attribute) and f.attr == "visit" and isinstance(f.value, ast.Call) and call_attr(f.value) == "_SafeVisitor":
-                out.append(c)
-        return out
+    def simple_stmt(n) -> bool:
+        return n.ast is not None and n.kind == "stmt" and not isinstance(n.ast, FuncNode + (ast.ClassDef,))
 
-    visit_nodes = [n for n in g.nodes if visit_calls(n)]
-    # visitor objects bound to a local first: v = _SafeVisitor(..); v.visit(tree)
-    local_visitors = {}
-    for n in walk_no_nested(comp):
-        if isinstance(n, ast.Assign) and isinstance(n.value, ast.Call) and call_attr(n.value) == "_SafeVisitor":
-            for t in n.targets:
-                if isinstance(t, ast.Name):
-                    local_visitors[t.id] = n.value
+    def visitor_ctor(e: ast.AST) -> Optional[ast.Call]:
+        if isinstance(e, ast.Call) and call_attr(e) == VISITOR:
+            return e
+        if isinstance(e, ast.Name):
+            vals = assigned_value(comp, e.id)
+            if len(vals) == 1 and isinstance(vals[0], ast.Call) and call_attr(vals[0]) == VISITOR:
+                return vals[0]
+        return None
+
+    # (cfg node, the .visit(tree) call, the constructor call)
+    visit_sites: List[Tuple[object, ast.Call, ast.Call]] = []
     for n in g.nodes:
-        if n.ast is not None and n.kind == "stmt" and not visit_calls(n):
+        if simple_stmt(n):
             for c in calls_in(n.ast):
                 f = c.func
-                if isinstance(f, ast.Attribute) and f.attr == "visit" and isinstance(f.value, ast.Name) and f.value.id in local_visitors:
-                    visit_nodes.append(n)
-    if not visit_nodes:
-        R.violation(r_ord, fn_rel, "ExpressionEvaluator.compile", "_SafeVisitor(...).visit(tree)", "the expression tree is never validated", comp.lineno)
+                if isinstance(f, ast.Attribute) and f.attr == "visit":
+                    ctor = visitor_ctor(f.value)
+                    if ctor is not None:
+                        visit_sites.append((n, c, ctor))
+    compile_nodes = []
+    for n in g.nodes:
+        if simple_stmt(n):
+            for c in calls_in(n.ast):
+                if isinstance(c.func, ast.Name) and c.func.id == "compile":
+                    compile_nodes.append((n, c))
+
+    def bind_call(h: ast.AST, call: ast.Call, recv: bool) -> Dict[str, ast.AST]:
+        pos = [a.arg for a in h.args.posonlyargs + h.args.args]
+        if recv and pos:
+            pos = pos[1:]
+        out: Dict[str, ast.AST] = {}
+        defaults = h.args.defaults
+        allpos = [a.arg for a in h.args.posonlyargs + h.args.args]
+        for nm, d in zip(allpos[len(allpos) - len(defaults):], defaults):
+            out[nm] = d
+        for a, d in zip(h.args.kwonlyargs, h.args.kw_defaults):
+            if d is not None:
+                out[a.arg] = d
+        for nm, v in zip(pos, call.args):
+            out[nm] = v
+        for kw in call.keywords:
+            if kw.arg is not None:
+                out[kw.arg] = kw.value
+        return out
+
+    def parse_origins(fmod, fn: ast.AST, e: ast.AST, bind: Dict[str, ast.AST], depth: int = 0) -> Optional[List[Tuple[ast.Call, Dict[str, ast.AST]]]]:
+        """The ``ast.parse`` calls *e* (an expression of *fn*) can evaluate to, followed through locals,
+        conditional expressions and the returned values of repo functions; None when some origin is something else."""
+        if depth > 5:
+            return None
+        if isinstance(e, ast.IfExp):
+            a, b = parse_origins(fmod, fn, e.body, bind, depth + 1), parse_origins(fmod, fn, e.orelse, bind, depth + 1)
+            return a + b if a is not None and b is not None else None
+        if isinstance(e, ast.Call):
+            nm = call_name(e)
+            if nm == "ast.parse" or (nm is not None and fmod.imports.get(nm) == "ast.parse"):
+                return [(e, bind)]
+            try:
+                targets = repo.resolve_call(fmod, e)
+            except Exception:
+                targets = []
+            if len(targets) != 1 or not isinstance(targets[0][1], FuncNode):
+                return None
+            hm, h = targets[0]
+            if any(isinstance(x, (ast.Yield, ast.YieldFrom)) for x in ast.walk(h)) or isinstance(h, ast.AsyncFunctionDef) or h.decorator_list and any(dotted_name(d) != "staticmethod" for d in h.decorator_list):
+                return None
+            repo.consulted.add(hm.rel)
+            hn = nfunc(repo, hm.rel, qualname_of(h), copyprop="all")
+            rvs = returned_values(hn)
+            if not rvs:
+                return None
+            is_method = isinstance(parent(h), ast.ClassDef) and not any(dotted_name(d) == "staticmethod" for d in h.decorator_list)
+            hb = bind_call(hn, e, is_method)
+            out: List[Tuple[ast.Call, Dict[str, ast.AST]]] = []
+            for rv in rvs:
+                sub = parse_origins(hm, hn, rv, hb, depth + 1)
+                if sub is None:
+                    return None
+                out += sub
+            return out
+        if isinstance(e, ast.Name):
+            vals = assigned_value(fn, e.id)
+            if not vals:
+                return None
+            out2: List[Tuple[ast.Call, Dict[str, ast.AST]]] = []
+            for v in vals:
+                sub = parse_origins(fmod, fn, v, bind, depth + 1)
+                if sub is None:
+                    return None
+                out2 += sub
+            return out2
+        return None
+
+    if not visit_sites:
+        R.violation(r_ord, fn_rel, COMPILE_QN, "_SafeVisitor(...).visit(tree)", "the expression tree is never validated", comp.lineno)
     else:
-        vn = visit_nodes[0]
-        vcall = None
-        ctor = None
-        for c in calls_in(vn.ast):
-            f = c.func
-            if isinstance(f, ast.Attribute) and f.attr == "visit":
-                vcall = c
-                ctor = f.value if isinstance(f.value, ast.Call) else local_visitors.get(getattr(f.value, "id", ""))
-        assert vcall is not None
-        # constructor argument is the allowed_names parameter unchanged
-        a0 = ctor.args[0] if ctor is not None and ctor.args else (kwarg(ctor, "allowed_names") if ctor is not None else None)
-        ok_arg = isinstance(a0, ast.Name) and a0.id == names_param or (
-            isinstance(a0, ast.Call) and call_attr(a0) in ("set", "frozenset") and len(a0.args) == 1 and isinstance(a0.args[0], ast.Name) and a0.args[0].id == names_param)
-        R.check(bool(ok_arg), r_ord, fn_rel, "ExpressionEvaluator.compile", norm(vcall), "visitor is not constructed from the allowed_names parameter unchanged", vcall.lineno)
-        visited_tree = vcall.args[0] if vcall.args else None
-        tree_name = visited_tree.id if isinstance(visited_tree, ast.Name) else None
-        # tree has a single definition: ast.parse(expr, mode="eval")
-        defs = [n for n in walk_no_nested(comp) if isinstance(n, ast.Assign) and any(isinstance(t, ast.Name) and t.id == tree_name for t in n.targets)]
-        single = tree_name is not None and len(defs) == 1 and isinstance(defs[0].value, ast.Call) and call_name(defs[0].value) == "ast.parse"
-        R.check(single, r_ord, fn_rel, "ExpressionEvaluator.compile", f"{tree_name} = ast.parse(...)", "the validated tree is not the single result of ast.parse", comp.lineno)
-        if single:
-            pc = defs[0].value
-            mode = kwarg(pc, "mode") or (pc.args[2] if len(pc.args) > 2 else None)
-            R.check(isinstance(mode, ast.Constant) and mode.value == "eval", r_ord, fn_rel, "ExpressionEvaluator.compile", norm(defs[0]),
-                    "expression is not parsed in eval mode (statements would be parsed)", defs[0].lineno)
-        # builtin compile() dominated by the visit and applied to the same tree
-        compile_nodes = []
-        for n in g.nodes:
-            if n.ast is not None and n.kind == "stmt":
-                for c in calls_in(n.ast):
-                    if isinstance(c.func, ast.Name) and c.func.id == "compile":
-                        compile_nodes.append((n, c))
+        vparam_name = ctor_param
+        for vn, vcall, ctor in visit_sites:
+            # constructor argument is the allowed_names parameter unchanged
+            a0 = ctor.args[0] if ctor.args else kwarg(ctor, vparam_name)
+            extra = len(ctor.args) + len(ctor.keywords) > 1
+            R.check(a0 is not None and names_unchanged(a0, names_param, comp) and not extra, r_ord, fn_rel, COMPILE_QN, norm(vcall),
+                    "visitor is not constructed from the allowed_names parameter unchanged", vcall.lineno)
+            visited_tree = vcall.args[0] if vcall.args else None
+            tree_name = visited_tree.id if isinstance(visited_tree, ast.Name) else None
+            # every binding of the tree that reaches the validation is a result of ast.parse(..., mode="eval")
+            origins: Optional[List[Tuple[ast.Call, Dict[str, ast.AST]]]] = None
+            if tree_name is not None:
+                defs = reaching_defs(g, tree_name, vn.id)
+                origins = [] if defs else None
+                for d in defs:
+                    a = d.ast
+                    val = a.value if isinstance(a, (ast.Assign, ast.AnnAssign)) and d.kind == "stmt" else None
+                    tg = (a.targets if isinstance(a, ast.Assign) else [a.target]) if val is not None else []
+                    sub = parse_origins(mod, comp, val, {}) if val is not None and all(isinstance(t, ast.Name) for t in tg) else None
+                    if sub is None or origins is None:
+                        origins = None
+                    else:
+                        origins += sub
+            elif isinstance(visited_tree, ast.Call):
+                origins = parse_origins(mod, comp, visited_tree, {})
+            R.check(origins is not None, r_ord, fn_rel, COMPILE_QN, f"{tree_name} = ast.parse(...)", "the validated tree is not the single result of ast.parse", comp.lineno)
+            for pc, bind in origins or []:
+                mode = kwarg(pc, "mode") or (pc.args[2] if len(pc.args) > 2 else None)
+                hops = 0
+                while isinstance(mode, ast.Name) and mode.id in bind and hops < 4:
+                    mode = bind[mode.id]
+                    hops += 1
+                R.check(isinstance(mode, ast.Constant) and mode.value == "eval", r_ord, fn_rel, COMPILE_QN, norm(stmt_of(pc)) if parent(pc) is not None else norm(pc),
+                        "expression is not parsed in eval mode (statements would be parsed)", pc.lineno)
+            # a rejection must leave the function exceptionally
+            exc_succ = [t for t, lab in g.succ[vn.id] if lab == EXC]
+            seen = g.reach(exc_succ)
+            escaped = [t for t in [g.ret_exit] + [cn.id for cn, _ in compile_nodes] if t in seen]
+            R.check(not escaped, r_ord, fn_rel, COMPILE_QN, "rejection propagates",
+                    "an ExpressionError raised by the visitor can be swallowed and compilation/return still reached", vn.line,
+                    g.path_to(seen, escaped[0]) if escaped else None)
+        # builtin compile() dominated by the validation of the very object it compiles
         if not compile_nodes:
             raise AnalysisError("ExpressionEvaluator.compile: builtin compile() call not found")
         for n, c in compile_nodes:
-            dom = all(g.dominated_by_node(n.id, v.id) for v in visit_nodes[:1])
-            same = bool(c.args) and isinstance(c.args[0], ast.Name) and c.args[0].id == tree_name
-            R.check(dom, r_ord, fn_rel, "ExpressionEvaluator.compile", norm(c), "compile() is reachable without the validation having run", c.lineno)
-            R.check(same, r_ord, fn_rel, "ExpressionEvaluator.compile", norm(c) + " [same tree]", "the compiled object is not the validated tree (re-parse or different source)", c.lineno)
-        # a rejection must leave the function exceptionally
-        exc_succ = [t for t, lab in g.succ[vn.id] if lab == EXC]
-        seen = g.reach(exc_succ)
-        escaped = [t for t in [g.ret_exit] + [cn.id for cn, _ in compile_nodes] if t in seen]
-        R.check(not escaped, r_ord, fn_rel, "ExpressionEvaluator.compile", "rejection propagates",
-                "an ExpressionError raised by the visitor can be swallowed and compilation/return still reached", vn.line,
-                g.path_to(seen, escaped[0]) if escaped else None)
+            tname = c.args[0].id if c.args and isinstance(c.args[0], ast.Name) else None
+            v_all = {v.id for v, _c, _k in visit_sites}
+            v_same = {v.id for v, vc, _k in visit_sites if tname is not None and vc.args and isinstance(vc.args[0], ast.Name) and vc.args[0].id == tname}
+            dom = n.id not in v_all and n.id not in g.reach([g.entry], blocked=v_all)
+            R.check(dom, r_ord, fn_rel, COMPILE_QN, norm(c), "compile() is reachable without the validation having run", c.lineno)
+            same = bool(v_same) and n.id not in v_same and n.id not in g.reach([g.entry], blocked=v_same)
+            why = "the compiled object is not the validated tree (re-parse or different source)"
+            path = None
+            if same:
+                # no binding of the name can reach compile() without a validation after it
+                for d in reaching_defs(g, tname, n.id):
+                    seen = g.reach([t for t, _l in g.succ[d.id] if t not in v_same], blocked=v_same)
+                    if n.id in seen:
+                        same = False
+                        why = "the tree is (re)bound after its validation: the compiled object is not the validated one"
+                        path = [f"L{d.line}: {d.text()}"] + g.path_to(seen, n.id)
+                        break
+            R.check(same, r_ord, fn_rel, COMPILE_QN, norm(c) + " [same tree]", why, c.lineno, path)
+            # the validated tree is not altered between validation and compile()
+            altered = None
+            if same and tname is not None:
+                after_visit = g.reach([t for v in v_same for t, lab in g.succ[v] if lab != EXC])
+                def between(st: ast.AST) -> bool:
+                    return any(i in after_visit and n.id in g.reach([i]) and i != n.id for i in g.nodes_for(st))
+                for site, _root in mutation_sites(comp, {tname}):
+                    if between(stmt_of(site)):
+                        altered = site
+                for cn in g.nodes:
+                    if altered is None and simple_stmt(cn) and cn.id in after_visit and cn.id != n.id and cn.id not in v_same and n.id in g.reach([cn.id]):
+                        for k in calls_in(cn.ast):
+                            args = list(k.args) + [kw.value for kw in k.keywords]
+                            if any(isinstance(a, ast.Name) and a.id == tname for a in args) and call_name(k) not in TREE_READERS:
+                                altered = k
+            R.check(altered is None, r_ord, fn_rel, COMPILE_QN, norm(c) + " [tree unchanged since validation]",
+                    f"the validated tree is altered / handed to `{norm(altered) if altered is not None else ''}` between validation and compile()", getattr(altered, "lineno", c.lineno))
     # every normal return is preceded by the validation (a memoised result may be returned
     # early only when the memo key includes the allowed names, i.e. it was validated for them)
-    if visit_nodes:
-        vset = {v.id for v in visit_nodes}
+    if visit_sites:
+        vset = {v.id for v, _c, _k in visit_sites}
         bad = g.must_pass([g.entry], [g.ret_exit], lambda n: n.id in vset)
         ok_ret = True
         why_path = None
@@ -498,63 +1186,111 @@ def run(repo: Repo, R: Report) -> None:
                     if not _keyed_by(comp, n.ast.value, names_param):
                         ok_ret = False
                         why_path = g.path_to(seen, n.id)
-        R.check(ok_ret, r_ord, fn_rel, "ExpressionEvaluator.compile", "every return is preceded by validation for these allowed names",
+        R.check(ok_ret, r_ord, fn_rel, COMPILE_QN, "every return is preceded by validation for these allowed names",
                 "compile() can return a callable without validating the expression against this call's allowed names (e.g. a memo keyed by the text alone)", comp.lineno, why_path)
     # eval call: globals is self.env, code from compile
     r_eval = R.rule("C11-D3-eval", "eval() receives the compiled validated code, the fixed environment as globals and only the sweep variables as locals", 1)
-    evals = [c for c in ast.walk(comp) if isinstance(c, ast.Call) and isinstance(c.func, ast.Name) and c.func.id == "eval"]
     if not evals:
         raise AnalysisError("ExpressionEvaluator.compile: eval() call not found")
     code_names = set()
-    for n in walk_no_nested(comp):
-        if isinstance(n, ast.Assign) and isinstance(n.value, ast.Call) and isinstance(n.value.func, ast.Name) and n.value.func.id == "compile":
-            code_names |= {t.id for t in n.targets if isinstance(t, ast.Name)}
+    for n, c in compile_nodes:
+        st = n.ast
+        if isinstance(st, (ast.Assign, ast.AnnAssign)) and st.value is c:
+            code_names |= {t.id for t in (st.targets if isinstance(st, ast.Assign) else [st.target]) if isinstance(t, ast.Name)}
     for c in evals:
-        fn = next((a for a in _anc(c) if isinstance(a, FuncNode)), comp)
+        fn = _enclosing(c, comp)
         kwname = fn.args.kwarg.arg if fn.args.kwarg else None
+        code_ok = len(c.args) >= 1 and isinstance(c.args[0], ast.Name) and c.args[0].id in code_names and all(
+            isinstance(v, ast.Call) and isinstance(v.func, ast.Name) and v.func.id == "compile" for v in assigned_value(comp, c.args[0].id))
         ok = (
-            len(c.args) == 3 and not c.keywords
-            and isinstance(c.args[0], ast.Name) and c.args[0].id in code_names
-            and dotted_name(c.args[1]) == "self.env"
-            and isinstance(c.args[2], ast.Name) and c.args[2].id == kwname
+            len(c.args) == 3 and not c.keywords and code_ok
+            and dotted_name(c.args[1]) == f"self.{env_attr}"
+            and isinstance(c.args[2], ast.Name) and c.args[2].id == kwname and kwname is not None
         )
         R.check(ok, r_eval, fn_rel, qualname_of(fn), norm(c), "eval() arguments are not (validated code, self.env, **kwargs of the call)", c.lineno)
 
     # ---------------- who may eval ------------------------------------------
     r_who = R.rule("C11-D3-who-may-eval", "eval/exec/compile builtins occur only at the frozen sites", 3)
+    inlined = set(getattr(ncomp, "_inlined", []) or [])
+
+    def only_used_by_compile(name: str) -> bool:
+        """Every reference to the private helper *name* sits in compile() or in another helper inlined into it."""
+        for m in repo.modules.values():
+            for x in ast.walk(m.tree):
+                ref = (isinstance(x, ast.Name) and x.id == name) or (isinstance(x, ast.Attribute) and x.attr == name) or (isinstance(x, ast.alias) and x.name.split(".")[-1] == name)
+                if not ref:
+                    continue
+                if m is not mod:
+                    return False
+                f = next((a for a in ancestors(x) if isinstance(a, FuncNode)), None)
+                if f is None or not (qualname_of(f).startswith(COMPILE_QN) or f.name in inlined):
+                    return False
+        return True
+
     for m in repo.modules.values():
         for c in (n for n in ast.walk(m.tree) if isinstance(n, ast.Call)):
             if isinstance(c.func, ast.Name) and c.func.id in ("eval", "exec", "compile"):
-                fn = next((a for a in _anc(c) if isinstance(a, FuncNode)), None)
+                fn = next((a for a in _anc(c) if isinstance(a, ANYFUNC)), None)
                 qn = qualname_of(fn) if fn is not None else "<module>"
                 repo.consulted.add(m.rel)
-                allowed_here = EVAL_SITES.get((m.rel, qn), set())
+                allowed_here = set(EVAL_SITES.get((m.rel, qn), set()))
+                if m.rel == SAFE and qn.startswith(COMPILE_QN + "."):
+                    allowed_here |= {"eval"}  # a closure / lambda of compile(): arguments decided by C11-D3-eval
+                if m.rel == SAFE and isinstance(fn, FuncNode) and fn.name in inlined and c.func.id == "compile" and only_used_by_compile(fn.name):
+                    allowed_here |= {"compile"}  # analysed in context (inlined into the normal form of compile())
                 R.check(c.func.id in allowed_here, r_who, m.rel, qn, norm(c), f"{c.func.id}() outside the frozen who-may-eval table", c.lineno)
 
     # ---------------- sweep factory passes exactly the variables --------------
     r_sw = R.rule("C11-D3-sweep-names", "the sweep factory compiles expressions with exactly the declared variable names, and nothing else evaluates them", 2)
-    create = repo.func(SWEEP, "ParametricSweepFactory.create")
+    CPE = "_compile_parametric_expressions"
+    create = nfunc(repo, SWEEP, "ParametricSweepFactory.create", keep=(CPE,), copyprop="all")
+    cpe = nfunc(repo, SWEEP, CPE, copyprop="all")
+    cpe_params = [a.arg for a in cpe.args.posonlyargs + cpe.args.args]
+    if len(cpe_params) < 2:
+        raise AnalysisError("_compile_parametric_expressions signature changed")
+    names_p = cpe_params[1]
+
+    def is_var_names(e: ast.AST, depth: int = 0) -> bool:
+        """*e* is exactly the collection of declared variable names (the keys of the ``vars`` argument)."""
+        if depth > 4:
+            return False
+        if isinstance(e, ast.Name):
+            if e.id == "vars":
+                # the parameter itself, provided create() never rebinds it
+                return not any(isinstance(x, ast.Name) and x.id == "vars" and isinstance(x.ctx, (ast.Store, ast.Del)) for x in walk_no_nested(create))
+            val = local_value(create, e.id)  # a named collection, bound once and never mutated
+            return val is not None and is_var_names(val, depth + 1)
+        if isinstance(e, ast.Call) and isinstance(e.func, ast.Attribute) and e.func.attr == "keys" and not e.args and not e.keywords:
+            return isinstance(e.func.value, ast.Name) and e.func.value.id == "vars"
+        if isinstance(e, ast.Call) and call_name(e) in ("set", "frozenset", "list", "tuple", "sorted") and len(e.args) == 1 and not e.keywords:
+            return is_var_names(e.args[0], depth + 1)
+        if isinstance(e, (ast.Set, ast.List, ast.Tuple)) and len(e.elts) == 1 and isinstance(e.elts[0], ast.Starred):
+            return is_var_names(e.elts[0].value, depth + 1)
+        if isinstance(e, (ast.SetComp, ast.ListComp, ast.GeneratorExp)) and len(e.generators) == 1:
+            gen = e.generators[0]
+            return (not gen.ifs and isinstance(gen.target, ast.Name) and isinstance(e.elt, ast.Name) and e.elt.id == gen.target.id
+                    and is_var_names(gen.iter, depth + 1))
+        return False
+
     found = False
     for c in calls_in(create):
-        if call_attr(c) == "_compile_parametric_expressions":
+        if call_attr(c) == CPE:
             found = True
-            a1 = c.args[1] if len(c.args) > 1 else kwarg(c, "allowed_names")
-            ok = (
-                isinstance(a1, ast.Call) and call_attr(a1) in ("set", "frozenset") and len(a1.args) == 1
-                and ((isinstance(a1.args[0], ast.Call) and dotted_name(a1.args[0].func) == "vars.keys") or (isinstance(a1.args[0], ast.Name) and a1.args[0].id == "vars"))
-            )
+            a1 = c.args[1] if len(c.args) > 1 else kwarg(c, names_p)
+            ok = a1 is not None and is_var_names(a1)
             R.check(ok, r_sw, SWEEP, "ParametricSweepFactory.create", norm(c), "allowed names passed to the expression compiler are not exactly set(vars)", c.lineno)
     if not found:
         raise AnalysisError("create(): call of _compile_parametric_expressions not found")
-    cpe = repo.func(SWEEP, "_compile_parametric_expressions")
-    names_p = cpe.args.args[1].arg
     ok_any = False
     for c in calls_in(cpe):
-        if call_attr(c) == "compile" and isinstance(c.func, ast.Attribute):
-            a = c.args[1] if len(c.args) > 1 else kwarg(c, "allowed_names")
-            ok = isinstance(a, ast.Name) and a.id == names_p
+        callee = c.func
+        if isinstance(callee, ast.Name):
+            callee = local_value(cpe, callee.id) or callee  # ``build = evaluator.compile``
+        if isinstance(callee, ast.Attribute) and callee.attr == "compile":
+            a = c.args[1] if len(c.args) > 1 else kwarg(c, names_param)
+            ok = a is not None and names_unchanged(a, names_p, cpe)
             ok_any = True
-            R.check(ok, r_sw, SWEEP, "_compile_parametric_expressions", norm(c), "allowed names widened between create() and the evaluator", c.lineno)
+            R.check(ok, r_sw, SWEEP, CPE, norm(c), "allowed names widened between create() and the evaluator", c.lineno)
     if not ok_any:
         raise AnalysisError("_compile_parametric_expressions: evaluator.compile call not found")
 
@@ -565,10 +1301,10 @@ def run(repo: Repo, R: Report) -> None:
         kinds = sorted(c.__name__ for c in ast.expr.__subclasses__())
         for k in kinds:
             if k not in effective:
-                R.ok(r_gram, fn_rel, "_SafeVisitor.generic_visit", f"{k}: rejected (not in whitelist, no handler)")
+                R.ok(r_gram, fn_rel, f"{VISITOR}.generic_visit", f"{k}: rejected (not in whitelist, no handler)")
             else:
                 for ftype, mult, fname in node_fields(k):
-                    R.check(k in DOCUMENTED_NODES, r_gram, fn_rel, "_SafeVisitor", f"{k}.{fname}: accepted kind, field {'custom handler' if k in handlers else 'generic_visit'}",
+                    R.check(k in DOCUMENTED_NODES, r_gram, fn_rel, VISITOR, f"{k}.{fname}: accepted kind, field {'custom handler' if k in handlers else 'generic_visit'}",
                             f"{k} accepted but undocumented")
         R.extra["grammar_expr_kinds"] = len(kinds)
 
@@ -576,13 +1312,11 @@ def run(repo: Repo, R: Report) -> None:
 
 
 def _anc(node):
-    from ..engine import ancestors
     return ancestors(node)
 
 
 def _keyed_by(func, value, names_param: str) -> bool:
     """Is *value* (a returned expression) a lookup whose key mentions *names_param*?"""
-    from ..engine import assigned_value
 
     def expand(e, depth=0):
         names = {n.id for n in ast.walk(e) if isinstance(n, ast.Name)}
